@@ -224,9 +224,11 @@ func verif_HandleVisitor(c *Controller, m *msg.NatHoleVisitor, transporter trans
 }
 
 // The handler holds a session entry while it talks to the owner: every send it
-// performs must be able to give up (select with timeout / done case).
+// performs and every wait for the owner's answer must be able to give up (select
+// with a timeout / done case): a bare receive would keep the session and its
+// goroutine for ever when the owner never answers.
 //
-//verif:noblock (*~/pkg/nathole.Controller).HandleVisitor props=C20,C16
+//verif:noblock (*~/pkg/nathole.Controller).HandleVisitor props=C20,C16 recv
 
 // ------------------------------------------------------------ score records
 
